@@ -1,5 +1,6 @@
 import PPModel.Mod.Entry
 import PPProofs.Lemmas.ParseTerm
+import PPProofs.Lemmas.ParseStrict
 /-!
 # C06 — termination on non-recursive grammars, with an explicit fuel bound
 
@@ -16,7 +17,9 @@ fuel exceeds the rank of the element called: every `_parse` call returns a match
                   there.  SkipTo's `ignore=` expression needs no condition: its loop (`ignLoop`) leaves on a zero-width match;
 * `acyclic_terminates`   fuel `> r id` suffices, for every input, location and flags;
 * `parseString_terminates`, `scanString_terminates` the same for parse_string (also with parse_all) and scan_string;
-* `advancing_of_nonempty` a simpler sufficient condition for `Advancing`.
+* `advancing_of_nonempty` a simpler sufficient condition for `Advancing`;
+* `advOk g k`, `advancing_of_advOk`, `acyclic_terminates_checked`  an executable sufficient test for `Advancing`, and the
+                  termination theorem with decidable hypotheses only.
 -/
 namespace PP.Parse
 
@@ -147,6 +150,49 @@ theorem advancing_of_nonempty (g : Grammar) (s : List Char)
       · exact skipIgnorables_ge _ _ _ _ _ _ hm
     omega
 
+/-- **executable form of the side condition**: every ignorable and every repetition body of the table passes the
+    syntactic test `consumes` (Lemmas/ParseStrict.lean: token leaves, `And`s containing one, `MatchFirst`s of such, and
+    Group / Suppress / Combine / Located / Forward wrappers of such) at analysis depth `k` -/
+def advOk (g : Grammar) (k : Nat) : Bool :=
+  g.all fun nd =>
+    nd.ignore.all (consumes g k) &&
+    (match nd.kind with
+     | .many x _ _ => consumes g k x
+     | _ => true)
+
+/-- the executable test implies the semantic side condition, on every input -/
+theorem advancing_of_advOk (g : Grammar) (k : Nat) (h : advOk g k = true) (s : List Char) : Advancing g s := by
+  apply advancing_of_nonempty
+  intro i nd hg x hx f loc a c l ts hp
+  have hmem : nd ∈ g := List.mem_of_getElem? hg
+  unfold advOk at h
+  rw [List.all_eq_true] at h
+  have hnd := h nd hmem
+  simp only [Bool.and_eq_true, List.all_eq_true] at hnd
+  have hc : consumes g k x = true := by
+    rcases hx with hx | ⟨ne, one, hk⟩
+    · exact hnd.1 x hx
+    · have := hnd.2
+      rw [hk] at this
+      exact this
+  exact consumes_sound g s k x hc f loc a c l ts hp
+
+/-- **C06 termination, fully decidable hypotheses.**  A node table that passes the two executable tests — `rankOk`
+    (well-founded) and `advOk` (ignorables and repetition bodies consume something) — terminates on **every** input:
+    no `_parse` call with fuel above the element's rank answers `hang`. -/
+theorem acyclic_terminates_checked (g : Grammar) (r : Nat → Nat) (k : Nat) (hr : rankOk g r = true)
+    (hk : advOk g k = true) (s : List Char) :
+    ∀ fuel id, id < g.length → r id < fuel → ∀ loc acts callPre, parse g s fuel id loc acts callPre ≠ .hang :=
+  acyclic_terminates g r hr s (advancing_of_advOk g k hk s)
+
+/-- … and so do parse_string (incl. parse_all) and scan_string from any root of such a table -/
+theorem entry_points_terminate_checked (g : Grammar) (r : Nat → Nat) (k : Nat) (hr : rankOk g r = true)
+    (hk : advOk g k = true) (s dw : List Char) (root : Nat) (hroot : root < g.length) (fuel : Nat) (hf : r root < fuel) :
+    (∀ pa, parseString (parse g s fuel) g root dw s pa ≠ .hang) ∧
+    (∀ mm sk ov, (scanString (parse g s fuel) g root s mm sk ov).exc ≠ some .hang) :=
+  ⟨fun pa => parseString_terminates g r hr s dw (advancing_of_advOk g k hk s) root hroot fuel hf pa,
+   fun mm sk ov => scanString_terminates g r hr s (advancing_of_advOk g k hk s) root hroot fuel hf mm sk ov⟩
+
 /-! ### non-vacuity -/
 
 section Example
@@ -179,49 +225,23 @@ example : rankOk [leaf (.forward (some 0))] id = false := by decide
 theorem exG_no_rank (r : Nat → Nat) : rankOk [leaf (.forward (some 0))] r = false := by
   simp [rankOk, List.range, List.range.loop, leaf, Node.children, Kind.children]
 
-/-- a `Literal` that matches consumes its (non-empty) match string -/
-theorem exG_advancing (s : List Char) : Advancing exG s := by
-  apply advancing_of_nonempty
-  intro i nd hg x hx f loc a c l ts hp
-  -- the only repetition is node 2, its body node 1; no node has ignorables
-  have hx1 : x = 1 := by
-    have hi : i < 4 := by
-      rcases List.getElem?_eq_some_iff.mp hg with ⟨hi, _⟩
-      simpa [exG] using hi
-    have : i = 0 ∨ i = 1 ∨ i = 2 ∨ i = 3 := by omega
-    rcases this with rfl | rfl | rfl | rfl <;> simp [exG, leaf] at hg <;> subst hg <;> simp at hx
-    exact hx.symm
-  subst hx1
-  cases f with
-  | zero => simp [parse] at hp
-  | succ f =>
-    simp only [parse, parseStep, exG, leaf, List.getElem?_cons_succ, List.getElem?_cons_zero] at hp
-    simp only [preParse, List.isEmpty_nil, if_true, parseImpl] at hp
-    have hlit : ∀ pre e ts, litImpl ['x', 'y'] s pre = .ok e ts → pre < e := by
-      intro pre e ts h
-      unfold litImpl at h
-      split at h
-      · simp at h
-      · split at h <;> simp at h
-        omega
-    generalize hpre : (if (c && true) = true then PreR.at (skipWhite [' ', '\t', '\n', '\r'] s loc) else PreR.at loc) = pr
-      at hp
-    have hpr : ∃ pre, pr = .at pre ∧ loc ≤ pre := by
-      subst hpre
-      split
-      · exact ⟨_, rfl, skipWhite_ge _ _ _⟩
-      · exact ⟨_, rfl, Nat.le_refl _⟩
-    obtain ⟨pre, rfl, hle⟩ := hpr
-    simp only at hp
-    cases hl : litImpl ['x', 'y'] s pre with
-    | ok e ts' =>
-      rw [hl] at hp
-      simp at hp
-      have := hlit _ _ _ hl
-      omega
-    | fail k l' => rw [hl] at hp; simp at hp
-    | idx => rw [hl] at hp; simp at hp
-    | hang => rw [hl] at hp; simp at hp
+/-- the example passes the executable side-condition test (the body of the ZeroOrMore is a Literal) … -/
+example : advOk exG 1 = true := by decide
+
+/-- … hence satisfies `Advancing` on every input -/
+theorem exG_advancing (s : List Char) : Advancing exG s := advancing_of_advOk exG 1 (by decide) s
+
+/-- a repetition of a two-token sequence inside a Group, with a comment-like ignorable: both tests pass -/
+example :
+    let g : Grammar :=
+      [ leaf (.lit1 '#'),                                                   -- 0  ignorable
+        leaf (.word ['a'] ['a'] 1 none false false false),                  -- 1
+        leaf (.lit1 ','),                                                   -- 2
+        { leaf (.and [1, 2]) with mayIdx := false },                        -- 3
+        { leaf (.group 3) with mayIdx := false },                           -- 4
+        { leaf (.many 4 none true) with mayIdx := false, ignore := [0] } ]  -- 5  OneOrMore(Group(Word + ","))
+    rankOk g id = true ∧ advOk g 3 = true := by
+  decide
 
 /-- hence every `_parse` call on the example grammar terminates with fuel 4, on every input -/
 example (s : List Char) (i : Nat) (hi : i < 4) (loc : Nat) (a c : Bool) : parse exG s 4 i loc a c ≠ .hang :=
